@@ -54,7 +54,12 @@ def setup_sym(R):
         from sx.env import _bv_of
         return text.SxText(f(_bv_of(b)))
     instrument.register(R.bip39.mnemonic_from_entropy, mnem)
-    # fresh entropy (C08's subject) is an arbitrary value here: one free bit-vector per request
+    install_fresh_entropy_stubs()
+
+
+def install_fresh_entropy_stubs():
+    """fresh entropy (C08's subject) is an arbitrary value here: one free bit-vector per request"""
+    from sx import instrument
     import random as _random
     import z3 as _z3
     from sx.values import SxInt as _SxInt
